@@ -551,6 +551,22 @@ class World:
         m["platform"] = types.SimpleNamespace(system=lambda: "Linux")
         import io as _io
         m["io"] = types.SimpleNamespace(StringIO=_io.StringIO, BytesIO=_io.BytesIO)
+
+        # --- tempfile: unique names in a directory of the AFS (mkstemp returns an open descriptor, unbuffered)
+        from .afs import AWFile as _AWFile, _Fd as _FdT, Node as _Node
+
+        def mkstemp(suffix=None, prefix=None, dir=None, text=False):
+            d = fs.abs(dir if dir is not None else "/tmp")
+            if d not in fs.dirs:
+                raise FileNotFoundError(2, "No such file or directory", d)
+            w._tmpn = getattr(w, "_tmpn", 0) + 1
+            path = "%s/%stmp%04d%s" % (d.rstrip("/"), prefix or "", w._tmpn, suffix or "")
+            fs._op("open-x", path)
+            fs.files[path] = _Node(ABuf.of([]))
+            return _FdT(_AWFile(fs, path, "w", unbuffered=True)), path
+        m["tempfile"] = types.SimpleNamespace(mkstemp=mkstemp, gettempdir=lambda: "/tmp", gettempprefix=lambda: "tmp",
+                                              NamedTemporaryFile=_Proxy("tempfile").__getattr__, TemporaryDirectory=_Proxy("tempfile").__getattr__,
+                                              mkdtemp=_Proxy("tempfile").__getattr__)
         m["ctypes"] = _Proxy("ctypes")
 
         # --- urllib.parse
